@@ -228,3 +228,48 @@ fn step_retain() {
     kani::cover!(t.len() >= 2 && dropped.get() != 0, "some kept, some dropped");
     std::mem::forget(t);
 }
+
+/// Insertion at the rehash boundary: the free-slot counter is at its minimum (slots/4), so
+/// `reserve(1)` has to rehash (dropping the tombstones) before the element may take a FREE
+/// slot. `len` and `free` are concrete so that the new capacity is concrete.
+fn insert_rehash(len: usize) {
+    let free = SLOTS / 4;
+    let h: [u64; K] = [kani::any(), kani::any(), kani::any(), kani::any()];
+    let mut p: Parts = [(FREE, 0); SLOTS];
+    let mut i = 0;
+    while i < SLOTS {
+        p[i] = (kani::any(), kani::any());
+        i += 1;
+    }
+    kani::assume(inv(&p, len, free, &h));
+    let mut t = RawTable::verif_from_parts(&p, len, free);
+    let q = any_key();
+    let w = any_key();
+    let r = t.find_or_find_insert_slot(h[q as usize], |&x| x == q);
+    assert!(t.slots() == SLOTS, "C17: a 16-slot table with at most 4 elements stays at 16 slots");
+    let p1 = parts_of(&t);
+    match r {
+        Ok(i) => assert!(i < SLOTS && is_hash(p1[i].0) && p1[i].1 == q && present(&p, q), "C17: an element that is present is found, not re-inserted"),
+        Err(s) => {
+            assert!(!present(&p, q), "C17: an insertion slot is only offered for an absent element");
+            assert!(s < SLOTS && !is_hash(p1[s].0), "C17: the insertion slot is not occupied");
+            unsafe { t.insert_in_slot_unchecked(h[q as usize], s, q) };
+        }
+    }
+    let p2 = parts_of(&t);
+    assert!(inv(&p2, t.len(), t.verif_free(), &h), "C17: representation invariant (incl. free >= 25 %) preserved by insertion at the rehash boundary");
+    assert!(present(&p2, w) == (present(&p, w) || w == q), "C17: after insertion the table contains exactly the old elements plus the new one");
+    kani::cover!(r.is_err() && count(&p, |s| s == TOMB) >= 9, "new element, tombstones dropped by the rehash");
+    kani::cover!(r.is_ok() || len == 0, "already present (if there is an element at all)");
+    std::mem::forget(t);
+}
+#[kani::proof]
+#[kani::unwind(18)]
+fn step_insert_rehash_len0() {
+    insert_rehash(0)
+}
+#[kani::proof]
+#[kani::unwind(18)]
+fn step_insert_rehash_len1() {
+    insert_rehash(1)
+}
